@@ -41,11 +41,11 @@ s_strip = mkfun('strip', Str, Str)
 s_startswith = mkfun('startswith', Str, Str, B)
 s_endswith = mkfun('endswith', Str, Str, B)
 s_truthy = mkfun('str_truthy', Str, B)           # bool(s): s is not None and s != ''
-is_int = mkfun('is_int', Str, B)
+is_int = mkfun('str_is_int', Str, B)
 int_of = mkfun('int_of', Str, I)
-is_float = mkfun('is_float', Str, B)
+is_float = mkfun('str_is_float', Str, B)
 float_of = mkfun('float_of', Str, R)
-is_dt = mkfun('is_dt', Str, B)
+is_dt = mkfun('str_is_dt', Str, B)
 dt_of = mkfun('dt_of', Str, R)                   # datetime as seconds
 str_of_int = mkfun('str_of_int', I, Str)
 note_path = mkfun('note_path', Node, Node)       # .//studioCommand[@type='note'] (uninterpreted, A-ET-FIND)
